@@ -846,6 +846,13 @@ type rig struct {
 	finished bool
 }
 
+// tbx is what the checks need from *testing.T / *rapid.T.
+type tbx interface {
+	Fatalf(format string, args ...any)
+	Logf(format string, args ...any)
+	Skipf(format string, args ...any)
+}
+
 var errRigTimeout = errors.New("rig: watchdog expired (inconclusive)")
 
 func startRig(o rigOpts) (*rig, error) {
